@@ -179,3 +179,96 @@ Proof.
   apply (assembled_decodes fp o sizes inp ids outs sum data _ bs p strict inflate Hcol HA Hopts Hinp Hsize Hnames Hstrict Hlaid);
     [unfold MAX_ZOOM_LEVELS in Hcap; exact Hcap|exact Hinc].
 Qed.
+
+(* ---------- the decoded records are exactly the input records; the summary is the folded one ---------- *)
+From BT Require Import Proofs.BigWigFileChroms Proofs.BigWigFileInput.
+
+Definition idx (ids : idmap) (c : name) : N := match lookup c ids with Some i => i | None => 0 end.
+Definition input_records (ids : idmap) (inp : list item) : list frec :=
+  map (fun it => rec_of (idx ids (fst it)) (snd it)) inp.
+
+Lemma runs_aux_expand : forall l cur acc,
+  flat_map (fun r : name * list value => map (pair (fst r)) (snd r)) (runs_aux cur acc l) = map (pair cur) (rev acc) ++ l.
+Proof.
+  induction l as [|[c v] l IH]; intros cur acc; cbn [runs_aux].
+  - cbn [flat_map fst snd]. now rewrite !app_nil_r.
+  - destruct (name_eqb c cur) eqn:E.
+    + apply name_eqb_eq in E. subst c. rewrite IH. cbn [rev]. rewrite map_app, <- app_assoc. reflexivity.
+    + rewrite fm_cons, IH. cbn [fst snd rev map app]. reflexivity.
+Qed.
+Lemma runs_expand inp : flat_map (fun r : name * list value => map (pair (fst r)) (snd r)) (runs inp) = inp.
+Proof. destruct inp as [|[c v] l]; [reflexivity|]. cbn [runs]. rewrite runs_aux_expand. reflexivity. Qed.
+
+Lemma lookup_number : forall l base c id, NoDup l -> In (c, id) (number base l) -> lookup c (number base l) = Some id.
+Proof.
+  induction l as [|x l IH]; intros base c id Hnd Hin; [destruct Hin|]. cbn [number lookup] in *.
+  inversion Hnd as [|? ? Hni Hnd']; subst. destruct Hin as [E|Hin].
+  - inversion E; subst. now rewrite name_eqb_refl.
+  - destruct (name_eqb c x) eqn:E.
+    + apply name_eqb_eq in E. subst c. exfalso. apply Hni. eapply number_in_name. exact Hin.
+    + now apply IH.
+Qed.
+
+Theorem records_are_input fp o sizes inp ids outs sum data :
+  bw_collect fp o sizes inp = Ok (ids, outs, sum, data) -> recs_of outs = input_records ids inp.
+Proof.
+  intros Hcol. pose proof (collect_grouped fp o sizes inp _ Hcol) as Hnd.
+  destruct (core_runs _ _ _ _ _ _ _ _ Hcol) as (Eids & HF & Hnum).
+  unfold input_records. rewrite <- (runs_expand inp).
+  assert (G : forall rs os, Forall2 (run_out sizes) rs os -> (forall c, In c os -> In (co_name c, co_id c) ids) ->
+              recs_of os = map (fun it : item => rec_of (idx ids (fst it)) (snd it))
+                             (flat_map (fun r : name * list value => map (pair (fst r)) (snd r)) rs)).
+  { induction 1 as [|r c rs os Hrc _ IH]; intros Hin; [reflexivity|]. unfold recs_of. rewrite !fm_cons, map_app. fold (recs_of os).
+    rewrite IH by (intros x Hx; apply Hin; now right). f_equal.
+    destruct Hrc as (Hn & Hv & _). rewrite map_map. cbn [fst snd]. rewrite <- Hv.
+    assert (E : idx ids (fst r) = co_id c).
+    { unfold idx. rewrite <- Hn. rewrite Eids. rewrite (lookup_number _ 0 (co_name c) (co_id c) Hnd); [reflexivity|].
+      rewrite <- Eids. apply Hin. now left. }
+    now rewrite E. }
+  apply G; [exact HF|]. intros c Hc. rewrite Eids, <- Hnum. apply in_map_iff. exists c. split; [reflexivity|exact Hc].
+Qed.
+
+Theorem summary_is_folded fp o sizes inp ids outs sum data :
+  bw_collect fp o sizes inp = Ok (ids, outs, sum, data) ->
+  sum = match fold_left (summary_merge fp) (map (fun c => chrom_summary fp (co_vals c)) outs) None with
+        | Some s => s | None => summary_zero end.
+Proof.
+  unfold bw_collect. destruct inp as [|it l]; [discriminate|].
+  destruct (process_runs o sizes None [] (runs (it :: l))) as [[ids' outs']| | |]; cbn [rbind]; try discriminate.
+  destruct (concat_res _) as [d| | |]; cbn [rbind]; try discriminate.
+  intros H. apply Ok_inj in H. now inversion H.
+Qed.
+
+(* the chromosome ids are first-appearance positions *)
+Theorem ids_first_appearance fp o sizes inp ids outs sum data :
+  bw_collect fp o sizes inp = Ok (ids, outs, sum, data) -> ids = number 0 (first_app (map fst inp)).
+Proof.
+  intros Hcol. destruct (core_runs _ _ _ _ _ _ _ _ Hcol) as (E & _). rewrite E.
+  now rewrite (run_names inp (collect_grouped fp o sizes inp _ Hcol)).
+Qed.
+
+(* ---------- with input_sort_type = ALL the writer's own order check makes the names increasing ---------- *)
+Lemma process_runs_increasing o sizes : o_sort_all o = true -> forall rs prev ids0 r,
+  process_runs o sizes prev ids0 rs = Ok r ->
+  names_increasing (map fst rs)
+  /\ match prev, rs with Some pn, (c, _) :: _ => name_cmp pn c = Lt | _, _ => True end.
+Proof.
+  intros Hs. induction rs as [|[c vals] rest IH]; intros prev ids0 r H; [split; [exact I|destruct prev; exact I]|].
+  cbn [process_runs] in H. rewrite Hs in H.
+  destruct (negb _) eqn:Eord in H; [discriminate|].
+  destruct (lookup c sizes) as [len|]; [|discriminate].
+  destruct (lookup c ids0); [discriminate|].
+  destruct (get_id ids0 c) as [ids' id].
+  destruct (check_chrom len vals) as [[]| | |]; cbn [rbind] in H; [|discriminate|discriminate|discriminate].
+  destruct (process_runs o sizes (Some c) ids' rest) as [[ids'' outs']| | |] eqn:Er; cbn [rbind] in H; [|discriminate|discriminate|discriminate].
+  destruct (IH _ _ _ Er) as [Hinc Hfirst]. split.
+  - cbn [map fst]. destruct rest as [|[c' v'] rest']; [exact I|]. cbn [map fst names_increasing]. split; [exact Hfirst|exact Hinc].
+  - destruct prev as [pn|]; [|exact I]. apply negb_false_iff in Eord. destruct (name_cmp pn c); try discriminate. reflexivity.
+Qed.
+
+Lemma sorted_names_increasing fp o sizes inp ids outs sum data : o_sort_all o = true ->
+  bw_collect fp o sizes inp = Ok (ids, outs, sum, data) -> names_increasing (map fst (runs inp)).
+Proof.
+  intros Hs Hcol. destruct (bw_collect_inv _ _ _ _ _ _ _ _ Hcol) as (_ & Hp & _).
+  now destruct (process_runs_increasing o sizes Hs _ _ _ _ Hp).
+Qed.
